@@ -55,6 +55,11 @@ def parseNetStep (st : String) : List Step :=
     match rest.splitOn "." with
     | k :: addr => [.connect (k.toNat?.getD 0) (parseAddr (".".intercalate addr))]
     | _ => []
+  -- `C<k1>.<ip1>/<k2>.<ip2>/…`: burst connect = the connects one after the other
+  else if op = 'C' then (rest.splitOn "/").filterMap fun item =>
+    match item.splitOn "." with
+    | k :: addr => some (.connect (k.toNat?.getD 0) (parseAddr (".".intercalate addr)))
+    | _ => none
   else if op = 'q' then [.request (rest.toNat?.getD 0)]
   -- `h<k>` … `t<k>`: one request delivered in two segments with other steps in between: nothing
   -- happens at `h`, the request is answered at `t` (the harness prints it as `q<k>`)
